@@ -166,6 +166,17 @@ def run(rep: Report, tier: str) -> None:
     ifd, lpd = assignment_guard(vs, "self.dependencies")
     tv = P.func("vtlengine.duckdb_transpiler.Transpiler.SQLTranspiler.visit_Start")
     ret_names = {r.value.id for r in walk_no_nested(tv.node) if isinstance(r, ast.Return) and isinstance(r.value, ast.Name)}
+    other_returns = [r for r in walk_no_nested(tv.node) if isinstance(r, ast.Return) and r.value is not None and not isinstance(r.value, ast.Name)]
+    rep.instance("R13.2", "queries-in-statement-order", nontrivial=True, sample={"returns": [src(r)[:60] for r in walk_no_nested(tv.node) if isinstance(r, ast.Return)]})
+    if other_returns:
+        # the execution numbers the queries 1..n and looks the numbers up in the schedule built from the statement order: anything but the one list
+        # appended to once per statement (a concatenation, a sort, a filter) detaches query k from statement k
+        rep.add(Finding("R13.2", "R13.2/queries-in-statement-order", tv.module.rel, other_returns[0].lineno, tv.qualname,
+                        f"SQLTranspiler.visit_Start returns `{src(other_returns[0].value)[:70]}`, not the list it appends one query to per statement in statement order: execute_queries numbers "
+                        f"the queries 1..n and uses the number as the statement's position in the load / release schedule, so a re-ordered list runs a statement after its inputs were released"))
+        names_in = {x.id for x in ast.walk(other_returns[0].value) if isinstance(x, ast.Name)}
+        ret_names = ret_names or {n_ for n_ in names_in if any(isinstance(c, ast.Call) and _callee_name(c) == "append" and src(c.func.value) == n_ for c in ast.walk(tv.node))}
+        ret_names = set(sorted(ret_names)[-1:]) if ret_names else ret_names
     if len(ret_names) != 1:
         raise AnalysisError("SQLTranspiler.visit_Start: the returned query list is not a single local")
     ift, lpt = assignment_guard(tv, f"{next(iter(ret_names))}.append")
